@@ -2,6 +2,10 @@
 
 package vh
 
-import "net/url"
+import (
+	"net/http"
+	"net/url"
+)
 
 func verifSetQuery(u *url.URL, v url.Values)
+func verifMoveCookies(dst, src *http.Request)
